@@ -142,6 +142,9 @@ func oracleC06(x *Exec, r *StepRec) {
 		}
 		e := x.eligible(pc, post)
 		thr := int(pc.ResponseThreshold)
+		if ci := x.tr.Ctxs[id]; ci != nil && ci.HasThreshold {
+			thr = int(ci.Threshold) // what the owning module last set successfully (ledger)
+		}
 		if thr < 1 {
 			thr = 1
 		}
@@ -488,6 +491,8 @@ func oracleC09(x *Exec, r *StepRec) {
 			switch {
 			case pc.State == types.COMPLETED:
 				ok = false
+			case r.Kind == "export" && qc.State == types.PAUSED:
+				ok = true // a zero-height export leaves every context paused, by design
 			case pc.State == types.RUNNING && qc.State == types.PAUSED:
 				ok = (verb == "pause" && named == id) ||
 					(r.Kind == "end" && qc.BatchCounter == pc.BatchCounter && len(newReqs[id]) == 0)
@@ -755,7 +760,7 @@ func batchRecords(s *Snap, cid string, batch uint64) (reqs, resps []string) {
 }
 
 func oracleC12(x *Exec, r *StepRec) {
-	if r.Kind == "msgfail" || r.Kind == "modfail" || r.Kind == "commit" {
+	if r.Kind == "msgfail" || r.Kind == "modfail" || r.Kind == "commit" || r.Kind == "export" {
 		return
 	}
 	pre, post := r.Pre, r.Post
@@ -881,6 +886,14 @@ func oracleC12(x *Exec, r *StepRec) {
 				return
 			}
 			thr := int(pc.BatchResponseThreshold)
+			if ci := x.tr.Ctxs[id]; ci != nil {
+				// the threshold the owning module asked for when this batch started (ledger), not the stored copy
+				for _, b := range ci.Batches {
+					if b.N == batch && b.HasThreshold {
+						thr = int(b.Threshold)
+					}
+				}
+			}
 			wantErr := len(want) < thr
 			if respCbs[0].HasErr != wantErr {
 				x.viol("C12", "callback_error", fmt.Sprintf("context %s batch %d: %d output(s), threshold %d, callback error=%v", id[:12], batch, len(want), thr, respCbs[0].HasErr), attrs)
